@@ -94,12 +94,13 @@ extern char gh_out_last;         /* last byte written */
 extern char gh_out_first;        /* first byte of the most recent write call */
 extern const char *gh_last_data; /* data pointer of the most recent write call */
 extern size_t gh_last_len;       /* len of the most recent write call */
-extern int gh_flushes;
-extern int gh_err_n;             /* error callback invocations */
+extern unsigned gh_flushes;
+extern unsigned gh_err_n;             /* error callback invocations */
 extern int gh_err_last;
-extern int gh_srq_n;             /* control(SRQ) invocations */
+extern unsigned gh_srq_n;             /* control(SRQ) invocations */
 extern unsigned gh_srq_val;
-extern int gh_reset_n;
+extern unsigned gh_reset_n;
+extern char *gh_buf; extern size_t gh_buflen; /* the input buffer object, for contracts that speak about tokens inside it */
 extern int gh_case;           /* proof-split selector set by harnesses; 0 = no restriction */
 
 size_t write_contract(scpi_t *context, const char *data, size_t len)
@@ -116,19 +117,16 @@ __CPROVER_ensures(!(gh_watch >= OLD(gh_out_len) && gh_watch < gh_out_len) ==> gh
 ;
 
 scpi_result_t flush_contract(scpi_t *context)
-__CPROVER_requires(gh_flushes < 1000000)
 __CPROVER_assigns(gh_flushes)
 __CPROVER_ensures(gh_flushes == OLD(gh_flushes) + 1)
 ;
 
 int error_contract(scpi_t *context, int_fast16_t error)
-__CPROVER_requires(gh_err_n < 1000000)
 __CPROVER_assigns(gh_err_n, gh_err_last)
 __CPROVER_ensures(gh_err_n == OLD(gh_err_n) + 1 && gh_err_last == error)
 ;
 
 scpi_result_t control_contract(scpi_t *context, scpi_ctrl_name_t ctrl, scpi_reg_val_t val)
-__CPROVER_requires(gh_srq_n < 1000000)
 /* C12: the service-request callback is never invoked while MSS is 0 */
 __CPROVER_requires(ctrl == SCPI_CTRL_SRQ ==> (val & STB_SRQ) != 0)
 __CPROVER_assigns(gh_srq_n, gh_srq_val)
@@ -136,7 +134,6 @@ __CPROVER_ensures(gh_srq_n == OLD(gh_srq_n) + 1 && gh_srq_val == val)
 ;
 
 scpi_result_t reset_contract(scpi_t *context)
-__CPROVER_requires(gh_reset_n < 1000000)
 __CPROVER_assigns(gh_reset_n)
 __CPROVER_ensures(gh_reset_n == OLD(gh_reset_n) + 1)
 ;
